@@ -138,6 +138,10 @@ def sim_inputs(seed, count, tier, dims=(3,), pers=(False, True), start_id=1):
         sel = sorted(set(sel))
         if len(sel) < 1:
             continue
+        if per and len(out) % 2 == 1:
+            # periodic: a generator on the lower wall of an axis is as valid on the UPPER wall (coordinate = anchor + width:
+            # inside the closed box, still distinct from the others modulo the period)
+            sel = sorted(tuple((G[k] if (p[k] == 0 and k < dim and rng.random() < 0.5) else p[k]) for k in range(3)) for p in sel)
         out.append({"id": start_id + len(out), "G": G, "dim": dim, "per": per, "gens": [list(p) for p in sel]})
     return out
 
@@ -982,7 +986,14 @@ def check_C17(tier, seed):
             out.coverage["transitions"] = out.coverage.get("transitions", 0) + r.states
             out.coverage.setdefault("models", {})["%s/q%d" % (ps, qi)] = dict(states=r.distinct, wall=round(r.wall, 1))
             log("VNN model %s q%d: %d states (%.1fs)" % (ps, qi, r.distinct, r.wall))
-    # implementation: recorded streams validated by VNNTrace
+    # implementation, first route: the candidate stream as the BUILDER consumes it (Visit / Terminate events of real builds of
+    # periodic and reflective lattice inputs, generators on lower and upper walls included), validated step by step by VCellTrace:
+    # every candidate taken is a nearest unvisited one, none twice
+    run = lattice_pipeline(["P2a", "D1p"] if tier == "quick" else ["P3a", "P2a", "P2x", "D2a", "D1a", "D1p"], tier, seed,
+                           sim=dict(count=16 if tier == "quick" else 200, dims=(1, 2, 3), pers=(True, True, False)), tag="C17_L",
+                           own_tags={"C17"}, trace_cells=1500)
+    apply_lattice(out, run, {"C17"}, {"C17"})
+    # second route: recorded streams of the search itself validated by VNNTrace
     cases = nn_cases(seed, tier)
     cf = os.path.join(OUT, "C17_cases.ndjson")
     with open(cf, "w") as f:
@@ -1011,11 +1022,12 @@ def check_C17(tier, seed):
             out.violation("%s (query %d of input %d: G=%s dim=%d per=%s n=%d)" % (x, v["qi"], rec["id"], rec["G"], rec["dim"], rec["per"], len(rec["gens"])),
                           {"trace_line": rec, "embedding": case["emb"]})
     out.coverage.update({
-        "traces_validated_against_impl": ok,
-        "evaluations": len(r.cases),
+        "traces_validated_against_impl": ok + out.coverage.get("traces_validated_against_impl", 0),
+        "evaluations": len(r.cases) + out.coverage.get("evaluations", 0),
         "distinct_nontrivial": len(r.cases),
         "stream_entries_checked": entries,
-        "rule": "one stream per (lattice input, query generator, embedding); full streams (n*3^d entries) for inputs up to ~80 points, "
+        "rule": "builder route: Visit / Terminate events of real builds of lattice inputs (periodic ones with generators on lower and upper "
+                "walls) validated by VCellTrace (nearest unvisited candidate at every step, none twice) || search route: one stream per (lattice input, query generator, embedding); full streams (n*3^d entries) for inputs up to ~80 points, "
                 "prefixes of 600/2000 entries for 10^3..10^4 points; every squared distance recomputed exactly by TLC; distinct = streams",
         "samples": [{k: (v if k != "gens" else v[:8]) for k, v in cases[0].items()}, {k: (v if k != "gens" else v[:8]) for k, v in cases[-1].items()}],
     })
